@@ -59,6 +59,9 @@ type Rule struct {
 	Prec   int    `json:"prec"`           // -1 or terminal index named by %prec
 	Action string `json:"action,omitempty"` // text including the braces, "" = none
 	Sem    *Sem   `json:"sem,omitempty"`    // abstract semantic action (tier G)
+	// NoAct: the driver file gives this rule no action at all (its reductions
+	// are then not recorded and its value is whatever the parser defaults to)
+	NoAct bool `json:"noact,omitempty"`
 }
 
 // Sem is an abstract semantic action whose text is the same in Go and
